@@ -2,7 +2,7 @@
    spans.  Statements only.  The reference semantics is Spec/Sets.v ([ref], [minus_runs],
    [inter_ref], [clipW]); payloads stand for all non-time fields of an event. *)
 From CG Require Import Proofs.Defs Proofs.Merge Proofs.Diff Proofs.InterDisjoint Proofs.Clip
-     Proofs.RefSpec.
+     Proofs.RefSpec Proofs.Assembly Proofs.Assembly2.
 
 (* union: every event of every operand is returned exactly once, untouched — any operands *)
 Theorem C02_union_events_exact : forall lt ss, Permutation (merge_by lt ss) (concat ss).
@@ -80,6 +80,21 @@ Theorem C02_intersection_equal_spans_refuted :
   existsb (fun o => pl_eqb (pl o) (Rich 5)) (inter_sweep [a; b] (fun _ => true)) = false.
 Proof. vm_compute. reflexivity. Qed.
 Print Assumptions C02_intersection_equal_spans_refuted.
+
+(* ---- whole expression trees ([good], see Props/C01.v): the slice is, as a multiset, the clip
+   of the window-independent reference evaluation [ref] — every source event with a surviving
+   part is returned once per part, trimmed, payload intact, nothing else ---- *)
+Theorem C02_events_exact : forall env e a b,
+  good env e -> wf_win' a b ->
+  Permutation (slice env e a b false)
+              (expected env e (fst (norm_bounds a b)) (snd (norm_bounds a b))).
+Proof. exact Assembly2.C02_events_exact. Qed.
+Print Assumptions C02_events_exact.
+
+Theorem C02_unbounded_evaluation : forall env e,
+  good env e -> Permutation (fetch env e None None false) (ref env e).
+Proof. exact fetch_full_exact. Qed.
+Print Assumptions C02_unbounded_evaluation.
 
 (* the check's multiset oracle is sound and complete for permutations *)
 Theorem C02_oracle_is_permutation : forall l1 l2, mset_eqb l1 l2 = true <-> Permutation l1 l2.
